@@ -1211,6 +1211,14 @@ func c03Run(c *lib.Ctx, cases []c3Case, nSweep int) {
 		reqs = append(reqs, "print flat "+cs.cf.wire()+" "+cs.obj.term())
 	}
 	replies := c.Model(reqs)
+	// the model's own pretty text (evidence only: the layout policy is not constrained by the property)
+	var reqsP []string
+	for i, cs := range cases {
+		if reqIdx[i] >= 0 {
+			reqsP = append(reqsP, fmt.Sprintf("print pretty %s %d %s", cs.cf.wire(), cs.cf.margin, cs.obj.term()))
+		}
+	}
+	repliesP := c.Model(reqsP)
 	// second round: the model reader applied to slip's texts
 	var reqs2 []string
 	type pending struct {
@@ -1246,7 +1254,7 @@ func c03Run(c *lib.Ctx, cases []c3Case, nSweep int) {
 		modelRead[[2]int{p.idx, w}] = replies2[k]
 	}
 
-	agree, inDomain, kText, kRead := 0, 0, 0, 0
+	agree, inDomain, kText, kRead, prettySame, prettyDiff := 0, 0, 0, 0, 0, 0
 	for i, cs := range cases {
 		res := results[i]
 		c.Ev.Case(cs.key(), cs.nontrivial())
@@ -1296,6 +1304,14 @@ func c03Run(c *lib.Ctx, cases []c3Case, nSweep int) {
 				"expected_from": "property statement (pretty printing changes only white space)"})
 		}
 		if reqIdx[i] >= 0 {
+			if w := strings.Fields(repliesP[reqIdx[i]]); len(w) == 2 && w[0] == "ok" && lib.Unhex(w[1]) == res.pretty {
+				prettySame++
+			} else if len(c.Ev.Coverage) >= 0 && prettyDiff < 3 {
+				prettyDiff++
+				c.Ev.Sample(map[string]string{"note": "model pretty layout differs from slip's (not a verdict)", "object": cs.obj.term(), "config": cs.cf.String(), "slip": res.pretty, "model": repliesP[reqIdx[i]]})
+			} else {
+				prettyDiff++
+			}
 			kText++
 			if a, detail := c3KCompare(cs, res, replies[reqIdx[i]], modelRead[[2]int{i, 0}], modelRead[[2]int{i, 1}]); a != "" {
 				detail["expected_from"] = "model:print (SlipVerif.Model.Printer)"
@@ -1315,6 +1331,8 @@ func c03Run(c *lib.Ctx, cases []c3Case, nSweep int) {
 	c.Ev.Coverage["random_cases"] = len(cases) - nSweep
 	c.Ev.Coverage["in_readable_domain"] = inDomain
 	c.Ev.Coverage["model_text_and_reader_agreements"] = kRead
+	c.Ev.Coverage["model_pretty_layout_identical"] = prettySame
+	c.Ev.Coverage["model_pretty_layout_different"] = prettyDiff
 	c.Ev.Coverage["rule"] = "case = (object, printer configuration); sweeps = boundary integers/ratios x base 2..36 x radix, one-character strings/characters/symbols over all ASCII and sampled Unicode, number-like / quoted symbol names x case, container shapes x pretty x margins, arrays/vectors x base x radix x array, floats of each format x readably (exhaustive, seed independent) + random nested objects x random configuration; every case is printed flat and pretty and read back (W), float-free cases are also compared with the model text and the model reader (K); non-trivial = has a container level or a boundary leaf (|n| >= 2^31, ratio, float, char outside [a-z0-9], symbol needing quoting, string with quote/backslash/non-printing); distinct by (configuration, object term)"
 }
 
